@@ -213,12 +213,35 @@ Theorem C15_point_inside_shift : forall p l1 l2, point_inside p (l2 ++ l1) = poi
 Proof. exact point_inside_shift. Qed.
 Print Assumptions C15_point_inside_shift.
 
-(* Not proved in Coq (kept visible): for every SIMPLE orthogonal polygon the grid matrix marks
-   exactly the cells inside the polygon (cell centre inside by the even-odd rule <-> cell inside
-   the polygon; a Jordan-curve argument).  Proved above for rectangle outlines only; for
-   single-trunk polygons it is explored by the correspondence (the model's grid and rectangles
-   equal the implementation's) and the oracle (shoelace area). *)
-Definition C15_polygon_grid_statement : Prop :=
-  forall vs inst, In inst (instances (grid_matrix vs)) ->
-    Qcsum (map (fun r => let '(_, _, w, h) := rect4 (x_coords vs) (y_coords vs) r in w * h) (rectangles inst)) =
-    Qcabs (Qcsum (map (fun e => fst (fst e) * snd (snd e) - fst (snd e) * snd (fst e)) (edges vs)) * half).
+(* worked examples: hypotheses of the implications above are satisfiable *)
+Example C15_strop_to_stog_ex :
+  let M := [[false; true; false; false]; [true; true; true; false];
+            [false; true; true; true]; [false; false; true; false]] in
+  let rs := map (to_rect (xs_of 0 [qc 1 1; qc 2 1; qc 1 2; qc 1 1]) (ys_of (qc 10 1) [qc 1 1; qc 3 1; qc 1 4; qc 2 1]))
+                (List.concat (map rectangles (instances M))) in
+  map trunk (instances M) = [mkSR 1 2 1 2] /\ List.length rs = 5%nat /\
+  exists out, create_stog (qc 1 1024) (qc 1 1024) rs = Some (true, out) /\
+              map rloc out = [TRUNK; NORTH; SOUTH; EAST; WEST].
+Proof. exact strop_to_stog_ex. Qed.
+
+Example C15_poly_ex :
+  grid_matrix L_example = [[true; false]; [true; true]] /\
+  exists l1 l2, strop_decomposition_all L_example = Some [l1; l2] /\
+    map (fun l => option_map (fun x => (fst x, map rloc (snd x)))
+                    (create_stog (qc 1 100) (qc 1 100) (map rect_of4 l))) [l1; l2] =
+    [Some (true, [TRUNK; EAST]); Some (true, [TRUNK; NORTH])].
+Proof. exact poly_ex. Qed.
+
+(* Not proved in Coq (kept visible): "the resulting rectangles have the polygon's area" for
+   every simple orthogonal polygon ([orthogonal], [simple], [shoelace] are defined in
+   Strop/PolygonFacts.v).  It needs: cell centre inside by the even-odd rule <-> cell inside the
+   polygon, a Jordan-curve argument; proved above for rectangle outlines only.  For single-trunk
+   polygons it is explored by the correspondence (the model's rectangles equal the
+   implementation's) and the oracle (shoelace area) on every run. *)
+Definition C15_polygon_area_statement : Prop :=
+  forall vs L l, orthogonal vs -> simple vs -> strop_decomposition_all vs = Some L -> In l L ->
+    Qcsum (map rect4_area l) = shoelace vs.
+(* it holds of the worked example *)
+Example C15_polygon_area_ex : forall L l, strop_decomposition_all L_example = Some L -> In l L ->
+  Qcsum (map rect4_area l) = shoelace L_example.
+Proof. exact polygon_area_ex. Qed.
